@@ -118,5 +118,32 @@ CHECKS = {
         "note": PLANNER_NOTE + " 'No longer than RRT' is the float statement for root-to-leaf left-fold sums with edges measured dist(child,parent); symmetry of dist is C09.",
         "technique": "Coq proof (float-level cost invariants via Flocq, simulation RRT ~ RRT*) + snapshot correspondence by vm_compute",
     },
+    "C06": {
+        "category": "proof",
+        "text": "Partial. Proved on the model (coq/Props/C06.v): the deadline is consulted exactly once per iteration, at the loop top "
+                "(budget 0 answers Timeout without sampling; a budget n+k run is the budget-n run continued: an expired deadline is noticed "
+                "after at most the iteration in flight; same for PRM construction and the BFS loop); no false success for every world: a "
+                "returned path is sound (starts at the start, ends in the goal, every segment motion-checked), so sealed goals / sealed "
+                "starts / invalid goal regions can only produce errors; one motion check costs num_steps validity queries, finite for a "
+                "positive resolution; C06_refuted_zero_resolution: resolution fraction 0 makes it 2^64-1 (known finding). Measured, not "
+                "proved: wall-clock overrun on real runs with time limits 0-100 ms (feasible and sealed-goal worlds, all planners and spaces).",
+        "design_ref": "DESIGN.md section 7 C06",
+        "note": PLANNER_NOTE + " Instant is a monotone clock oracle; scheduler delays, clock behaviour and the cost of user callbacks are outside the model.",
+        "technique": "Coq proof (deadline state machine, no-false-success) + correspondence + measured real-clock exploration",
+    },
+    "C18": {
+        "category": "proof",
+        "text": "Theorems C18_* (coq/Props/C18.v): in every reachable state the roadmap is a graph (adjacency in range, irreflexive, symmetric, "
+                "duplicate-free; every edge joins milestones closer than the radius with a motion accepted by check_motion, newer -> older); "
+                "its milestones are exactly the valid samples drawn, in order; a second construct_roadmap is the identity and "
+                "set_problem_definition changes only the problem; a successful query returns start :: walk along roadmap edges from a start "
+                "connection to a goal milestone; NoSolutionFound means no start connection, no goal milestone, or no goal milestone "
+                "graph-connected to a start connection (BFS completeness with the doubly seeded queue). Hop-minimality is NOT proved "
+                "(prm_minimal_partial): it is checked by an independent multi-source BFS on every real obstacle-free roadmap. "
+                "Correspondence: roadmap snapshots (states, adjacency lists in stored order) after every call.",
+        "design_ref": "DESIGN.md section 7 C18",
+        "note": PLANNER_NOTE + " HashMap is used only for keyed lookups (modelled as an association list).",
+        "technique": "Coq proof (roadmap invariant, BFS soundness and completeness) + snapshot correspondence by vm_compute",
+    },
 }
 NOT_APPLICABLE = {}
